@@ -9,6 +9,8 @@
 #include "mutate.h"
 
 static char scratch [300], tmpd [400] ;
+static int g_close_bad ; static int g_close_rc ;	/* a non-zero return of sf_close although the underlying close succeeded */
+#define CLOSE(s) do { int rc_ = sf_close (s) ; if (rc_ != 0) { g_close_bad++ ; g_close_rc = rc_ ; } } while (0)
 static int count_dir (const char *d) { DIR *dp = opendir (d) ; int n = 0 ; struct dirent *e ; if (!dp) return -1 ; while ((e = readdir (dp))) if (e->d_name [0] != '.' || (e->d_name [1] && e->d_name [1] != '.')) n++ ; closedir (dp) ; return n ; }
 static int count_fds (void) { return count_dir ("/proc/self/fd") ; }
 
@@ -30,6 +32,7 @@ static void account (const char *key, SCEN fn, void *arg, int own_files)
 		own_files = 0 ;		/* the second run overwrites the same output files */
 		}
 	vh_stat ("scenarios_accounted", 1) ;
+	if (g_close_bad) { vh_viol (vh_key ("C16|close-returns-nonzero|%s", strchr (key + 4, '|') ? strchr (key + 4, '|') + 1 : key), "sf_close returned %d although no I/O failed", g_close_rc) ; g_close_bad = 0 ; }
 	if (leaked)
 	{	SNAP c ; snap (&c) ;
 		vh_viol (key, "%s%s%s (repeatable)", what, b.heap > a.heap ? " [heap]" : "", b.fds != a.fds ? " [fd]" : "") ;
@@ -83,7 +86,7 @@ static void scen_valid (void *arg)
 		for (i = 0 ; i < v->nframes ; i += 64) sf_writef_float (s, fb, v->nframes - i > 64 ? 64 : v->nframes - i) ;
 		if (v->extra & 1) sf_command (s, SFC_UPDATE_HEADER_NOW, NULL, 0) ;
 		if (v->extra & 2) { sf_read_short (s, (short *) fb, 2) ; sf_seek (s, -3, SEEK_SET) ; sf_command (s, 0x7777, NULL, 0) ; }	/* calls that fail on this handle */
-		sf_close (s) ;
+		CLOSE (s) ;
 		}
 	else
 	{	MEMF rm ; rm = *v->base ; rm.pos = 0 ;	/* shares the bytes, read-only use */
@@ -100,7 +103,7 @@ static void scen_valid (void *arg)
 			if (v->mode == SFM_RDWR) { sf_set_string (s, SF_STR_TITLE, "changed in rdwr") ; sf_writef_float (s, fb, 5) ; }
 			}
 		if (v->extra & 2) { sf_write_short (s, (short *) fb, 2) ; sf_seek (s, 1 << 30, SEEK_SET) ; sf_read_int (s, (int *) fb, -4) ; }
-		sf_close (s) ;
+		CLOSE (s) ;
 		}
 	unlink (path) ; { char r [440] ; snprintf (r, sizeof (r), "%s/._v_%d.sd2", scratch, (int) getpid ()) ; unlink (r) ; }
 }
@@ -116,7 +119,7 @@ static void scen_input (void *arg)
 	else
 	{	FILE *fp ; snprintf (path, sizeof (path), "%s/in_%d.dat", scratch, (int) getpid ()) ; fp = fopen (path, "wb") ; if (!fp) return ; fwrite (in->d, 1, in->len, fp) ; fclose (fp) ;
 		s = sf_open (path, in->mode, &si) ; }
-	if (s) { if (si.channels >= 1 && si.channels <= 128) sf_readf_short (s, sb, 256 / si.channels) ; sf_get_string (s, SF_STR_TITLE) ; sf_get_chunk_iterator (s, NULL) ; sf_close (s) ; vh_stat ("inputs_accepted", 1) ; }
+	if (s) { if (si.channels >= 1 && si.channels <= 128) sf_readf_short (s, sb, 256 / si.channels) ; sf_get_string (s, SF_STR_TITLE) ; sf_get_chunk_iterator (s, NULL) ; CLOSE (s) ; vh_stat ("inputs_accepted", 1) ; }
 	else vh_stat ("inputs_rejected", 1) ;
 	if (in->route) unlink (path) ;
 }
@@ -129,25 +132,39 @@ static void scen_sd2 (void *arg)
 	fp = fopen (p1, "wb") ; if (!fp) return ; fwrite (in->data, 1, in->dlen, fp) ; fclose (fp) ;
 	fp = fopen (p2, "wb") ; if (!fp) { unlink (p1) ; return ; } fwrite (in->rsrc, 1, in->rlen, fp) ; fclose (fp) ;
 	memset (&si, 0, sizeof (si)) ; s = sf_open (p1, SFM_READ, &si) ;
-	if (s) { if (si.channels >= 1 && si.channels <= 32) sf_readf_short (s, sb, 64 / si.channels) ; sf_close (s) ; vh_stat ("sd2_accepted", 1) ; } else vh_stat ("sd2_rejected", 1) ;
+	if (s) { if (si.channels >= 1 && si.channels <= 32) sf_readf_short (s, sb, 64 / si.channels) ; CLOSE (s) ; vh_stat ("sd2_accepted", 1) ; } else vh_stat ("sd2_rejected", 1) ;
 	unlink (p1) ; unlink (p2) ;
 }
 static long slurp (const char *p, unsigned char **out) { FILE *f = fopen (p, "rb") ; long n ; if (!f) return -1 ; fseek (f, 0, SEEK_END) ; n = ftell (f) ; fseek (f, 0, SEEK_SET) ; *out = malloc (n + 1) ; if (fread (*out, 1, n, f) != (size_t) n) n = -1 ; fclose (f) ; return n ; }
 
 /* ---------------------------------------------------------------- scenario: I/O fault during open / read / close */
 typedef struct { const MEMF *base ; long at ; int kind, persist, write_mode, format, ch ; } FAULT ;
-static void scen_fault (void *arg)
+static void scen_fault (void *arg) ;
+static void scen_fault_inner (void *arg) ;
+static void scen_fault (void *arg) { scen_fault_inner (arg) ; g_close_bad = 0 ; /* under injected I/O faults sf_close may report the failure */ }
+static void scen_fault_inner (void *arg)
 {	FAULT *f = arg ; SF_INFO si ; SNDFILE *s ; short sb [128] ; MEMF m ;
 	memset (&si, 0, sizeof (si)) ;
 	if (f->write_mode)
 	{	wm.len = wm.pos = 0 ; wm.ncalls = 0 ; wm.fault_at = f->at ; wm.fault_kind = f->kind ; wm.fault_persist = f->persist ; wm.budget = 400000 ;
 		si.format = f->format ; si.channels = f->ch ; si.samplerate = 8000 ; s = sf_open_virtual (&MVIO, SFM_WRITE, &si, &wm) ;
-		if (s) { int i ; memset (sb, 1, sizeof (sb)) ; sf_set_string (s, SF_STR_TITLE, "t") ; for (i = 0 ; i < 40 ; i++) sf_write_short (s, sb, 128 / f->ch * f->ch) ; sf_close (s) ; }
+		if (s) { int i ; memset (sb, 1, sizeof (sb)) ; sf_set_string (s, SF_STR_TITLE, "t") ; for (i = 0 ; i < 40 ; i++) sf_write_short (s, sb, 128 / f->ch * f->ch) ; CLOSE (s) ; }
 		wm.fault_at = 0 ; wm.budget = 0 ; return ;
 		}
 	m = *f->base ; m.pos = 0 ; m.ncalls = 0 ; m.fault_at = f->at ; m.fault_kind = f->kind ; m.fault_persist = f->persist ; m.budget = 400000 ;
 	s = sf_open_virtual (&MVIO, SFM_READ, &si, &m) ;
-	if (s) { if (si.channels >= 1 && si.channels <= 64) { sf_readf_short (s, sb, 128 / si.channels) ; sf_seek (s, 5, SEEK_SET) ; sf_readf_short (s, sb, 128 / si.channels) ; } sf_close (s) ; }
+	if (s) { if (si.channels >= 1 && si.channels <= 64) { sf_readf_short (s, sb, 128 / si.channels) ; sf_seek (s, 5, SEEK_SET) ; sf_readf_short (s, sb, 128 / si.channels) ; } CLOSE (s) ; }
+}
+
+/* ---------------------------------------------------------------- scenario: headerless codec streams of constant / random bytes (predictors driven to their limits) */
+typedef struct { int format, ch, byte ; } STREAM ;
+static void scen_stream (void *arg)
+{	STREAM *st = arg ; static unsigned char raw [6000] ; MEMF m ; SF_INFO si ; SNDFILE *s ; short sb [512] ; int i ;
+	for (i = 0 ; i < 6000 ; i++) raw [i] = st->byte >= 0 ? (unsigned char) st->byte : (unsigned char) (i * 197 + (i >> 3) * 31) ;
+	memset (&m, 0, sizeof (m)) ; m.d = raw ; m.len = 6000 ; m.cap = 6000 ; memset (&si, 0, sizeof (si)) ; si.format = st->format ; si.channels = st->ch ; si.samplerate = 8000 ;
+	s = sf_open_virtual (&MVIO, SFM_READ, &si, &m) ; if (!s) return ;
+	while (sf_read_short (s, sb, 512 / st->ch * st->ch) > 0) ;
+	CLOSE (s) ; vh_stat ("raw_codec_streams_read", 1) ;
 }
 
 int main (int argc, char **argv)
@@ -158,6 +175,15 @@ int main (int argc, char **argv)
 	sd = getenv ("VERIF_SCRATCH_DIR") ; snprintf (scratch, sizeof (scratch), "%s/c16_%d", sd ? sd : ".", (int) getpid ()) ; mkdir (scratch, 0700) ;
 	snprintf (tmpd, sizeof (tmpd), "%s", getenv ("TMPDIR") ? getenv ("TMPDIR") : "/tmp") ;
 	memset (&wm, 0, sizeof (wm)) ; wm.cap = 4 << 20 ; wm.d = calloc (1, wm.cap) ;
+	{	static const int bytes [] = { 0x00, 0x77, 0x88, 0xFF, 0x7F, 0x80, 0x08, -1 } ; int b2 ;
+		for (f = 0 ; f < vh_nfmts ; f++) if (vh_fmts [f].major == SF_FORMAT_RAW) for (b2 = 0 ; b2 < 8 ; b2++)
+		{	STREAM st ; char key2 [200] ; st.format = vh_fmts [f].format ; st.ch = vh_accepts (st.format, 1, 8000) ? 1 : 2 ; st.byte = bytes [b2] ;
+			if (!vh_accepts (st.format, st.ch, 8000)) continue ;
+			if (!vh_case ("%s stream of byte %d", vh_fname (st.format), bytes [b2])) continue ;
+			snprintf (key2, sizeof (key2), "C16|leak|raw-stream|%s", vh_fname (st.format)) ; vh_distinct (vh_fnv (0, &st.format, 4) ^ ((uint64_t) (bytes [b2] + 2) << 40)) ;
+			account (key2, scen_stream, &st, 0) ;
+			}
+		}
 	for (f = 0 ; f < vh_nfmts ; f++) for (c = 1 ; c <= 2 ; c++)
 	{	int format = vh_fmts [f].format, maj = vh_fmts [f].major, k ; MEMF base ; char key [200] ;
 		if (!vh_accepts (format, c, 8000)) continue ;
